@@ -319,6 +319,22 @@ fn dribble_case(ctx: &mut Ctx, fmt: &str, bytes: &[u8], per: usize) {
     }
 }
 
+/// a writer that accepts at most `per` bytes per call: the file written is the same file
+fn wdribble_case(ctx: &mut Ctx, fmt: &str, bytes: &[u8], per: usize) {
+    let op = format!("{}.wdrib {} {}", fmt, per, hex(bytes));
+    ctx.oracle_eval(&format!("{}-dribbling-writer", fmt));
+    let b = bytes.to_vec();
+    let piece: Option<Option<Vec<u8>>> = if fmt == "pth" {
+        guard(move || { let p = Pth::read(&mut Cursor::new(&b)).ok()?; let mut w = DribbleW::new(per); p.write(&mut w).ok()?; Some(w.inner.into_inner()) })
+    } else {
+        guard(move || { let p = Smx::read(&mut Cursor::new(&b)).ok()?; let mut w = DribbleW::new(per); p.write(&mut w).ok()?; Some(w.inner.into_inner()) })
+    };
+    let whole: Option<Vec<u8>> = if fmt == "pth" { read_pth(bytes).and_then(|r| r.ok()).and_then(|(p, _)| write_pth(&p)).and_then(|r| r.ok()) } else { read_smx(bytes).and_then(|r| r.ok()).and_then(|(p, _)| write_smx(&p)).and_then(|r| r.ok()) };
+    if piece != Some(whole.clone()) {
+        ctx.violation(&format!("c17/{}/segmented-write", fmt), "the file written through a writer that accepts a few bytes per call is not the file written into memory", &truncate(&op, 300), &whole.map(|w| format!("{} bytes", w.len())).unwrap_or("none".into()), &format!("{:?}", piece.map(|o| o.map(|w| w.len()))));
+    }
+}
+
 /// counts around the 16-bit boundary, and a negative count with enough bytes behind it to satisfy any narrowed reading
 fn big_case(ctx: &mut Ctx, declared: i32, backing: usize) {
     let b = big_smx(declared, backing);
@@ -377,6 +393,8 @@ fn run_inner(ctx: &mut Ctx) {
                 ["pth.file", h] => file_case(ctx, "pth", &unhex(h), true),
                 ["smx.drib", k, h] => dribble_case(ctx, "smx", &unhex(h), k.parse().unwrap_or(1)),
                 ["pth.drib", k, h] => dribble_case(ctx, "pth", &unhex(h), k.parse().unwrap_or(1)),
+                ["smx.wdrib", k, h] => wdribble_case(ctx, "smx", &unhex(h), k.parse().unwrap_or(1).max(1)),
+                ["pth.wdrib", k, h] => wdribble_case(ctx, "pth", &unhex(h), k.parse().unwrap_or(1).max(1)),
                 ["pth.at", k, h] => offset_case(ctx, "pth", &unhex(h), k.parse().unwrap_or(0)),
                 ["pth.big", d, n] => big_pth_case(ctx, d.parse().unwrap_or(0), n.parse().unwrap_or(0)),
                 ["pth", h] => pth_case(ctx, &unhex(h), "replay", true),
@@ -441,6 +459,8 @@ fn run_inner(ctx: &mut Ctx) {
         let p = gen_pth(&mut ctx.rng, 1 + i % 4);
         if let Some(Ok(b)) = write_pth(&p) { for k in [1usize, 2, 3, 5] { offset_case(ctx, "pth", &b, k); } }
         // … and through a reader that gives a few bytes per call, whole and cut short
+        if let Some(Ok(b)) = write_smx(&s) { for per in [1usize, 5, 31] { wdribble_case(ctx, "smx", &b, per); } }
+        if let Some(Ok(b)) = write_pth(&p) { for per in [1usize, 5, 31] { wdribble_case(ctx, "pth", &b, per); } }
         if let Some(Ok(b)) = write_smx(&s) { for per in [1usize, 3, 7] { dribble_case(ctx, "smx", &b, per); dribble_case(ctx, "smx", &b[..b.len() - 1 - (i % 5)], per); } }
         if let Some(Ok(b)) = write_pth(&p) { for per in [1usize, 3, 7] { dribble_case(ctx, "pth", &b, per); dribble_case(ctx, "pth", &b[..b.len() - 1 - (i % 5)], per); } }
     }
